@@ -99,7 +99,7 @@ func recoverOn(img *vdisk.Disk, unstable bool, ext Extents) (ok bool, errs strin
 }
 
 func emptySnap() *Snap {
-	return &Snap{Ev: "snap", Who: "none", Bbm: []Iv{}, Ibm: []Iv{}, Inodes: []SInode{}, Dirs: []SDir{}, NonZero: []Iv{}, Balloc: []Iv{}, Ialloc: []Iv{}, Icache: []SCache{}}
+	return &Snap{Ev: "snap", Who: "none", Bbm: []Iv{}, Ibm: []Iv{}, Inodes: []SInode{}, Dirs: []SDir{}, NonZero: []Iv{}, Balloc: []Iv{}, Ialloc: []Iv{}, Icache: []SCache{}, Ipos: []int{}}
 }
 
 func staleOnly(r []RawRead, inostart int) []RawRead {
